@@ -107,7 +107,7 @@ func main() {
 			}
 			for lim := 1; lim <= 3; lim++ {
 				for a := 0; a <= 2*len(u.Blobs)+1; a++ {
-					pre = append(pre, drv.Op{Op: "enum", After: a, Limit: lim, Form: prng.Intn(3)})
+					pre = append(pre, drv.Op{Op: "enum", After: a, Limit: lim, Form: prng.Intn(6)})
 				}
 			}
 			hists[hi] = append(pre, hists[hi]...)
@@ -155,7 +155,7 @@ func randomHist(rng *rand.Rand, n, ln int) []drv.Op {
 		case x < 6:
 			h = append(h, drv.Op{Op: "stat", Bs: set()})
 		case x < 8:
-			h = append(h, drv.Op{Op: "enum", After: rng.Intn(2*n + 3), Limit: 1 + rng.Intn(n+1), Form: rng.Intn(3)})
+			h = append(h, drv.Op{Op: "enum", After: rng.Intn(2*n + 3), Limit: 1 + rng.Intn(n+1), Form: rng.Intn(6)})
 		default:
 			h = append(h, drv.Op{Op: "remove", Bs: set()})
 		}
